@@ -282,3 +282,25 @@ _R9 = {
 for _pid, _extra in _R9.items():
     _ref, _tech, _text, _note = CHECKS[_pid]
     CHECKS[_pid] = (_ref, _tech, _text + _extra, _note)
+
+# round 9 of independent mutants and mutation scan 4 (DESIGN 28.15)
+_R10 = {
+    "C04": " The mode the executor reads is the caller's: a configuration rebuilt from one of the same class passes every field, and the step executor is handed the "
+           "caller's config (or the plain default for a missing one).",
+    "C05": " The consumer model also produces refresh-only batches (a call without updates still moves the token on) and fire-and-forget items in the queues it drains; "
+           "the client makes the wire call once per hand-over (no loop around it).",
+    "C06": " The failure drain copes with queued items that have no completion event (an AttributeError half-way through leaves the rest asleep).",
+    "C07": " The arm for a running wait is also evaluated by value on a grid of clock readings: the earlier of the recorded end and one duration from now, a moment from now once "
+           "that has passed.",
+    "C09": " The counters are built with the quantity of each parameter's own name (number of inputs, the three configured thresholds) and store them in the fields the decision reads.",
+    "C13": " The recorded delay is the one the wait strategy decided; a constant only as the clamp of a decided delay below one second.",
+    "C15": " A leaf encoder renders the value it was given: the parameter is not re-bound and no value-changing call (astimezone, replace, normalize, quantize, ...) is applied to it.",
+    "C17": " When the status test of the completed set is not recognised the small-history scenarios still decide (in-flight operations must not keep the logger muted).",
+    "C18": " The checkpoint-error classification is evaluated on 15 status codes x 6 error bodies against the documented contract (4xx other than 429, with an error body that is "
+           "not the stale-token message, is the one category; everything else the other).",
+    "C19": " __exit__ returns a constant false value on every path after a body that raised (the holder sees its own exception).",
+    "C20": " What is stored under a key is the field or one of its lossless images (enum .value, to_dict(), a comprehension over the whole sequence): no slice, index or computation.",
+}
+for _pid, _extra in _R10.items():
+    _ref, _tech, _text, _note = CHECKS[_pid]
+    CHECKS[_pid] = (_ref, _tech, _text + _extra, _note)
